@@ -441,13 +441,15 @@ def tasks(tier, seed):
             for fam in F.base4(False):
                 for sup in supports_of([fam], sizes=(2, 3)):
                     for m in (2, 3, 4):
-                        out.append(_t("STV", m, o, sup, C.K4, nmax=8, W=W, weight=4 * len(sup), xval_stride=stride, split=3 if len(sup) >= 3 else 0))
+                        out.append(_t("STV", m, o, sup, C.K4, nmax=8, W=W, weight=4 * len(sup), xval_stride=stride, split=3 if len(sup) >= 3 else 0,
+                                      path_alarm=240.0))  # four-candidate STV paths need up to a minute of nlsat on a busy machine
         for fam in F.base4(False)[:2]:
             for sup in supports_of([fam], sizes=(3, 4)):
                 for m in (1, 2, 3):
                     out.append(_t("Plurality", m, {"tiebreak": "borda"}, sup, C.K4, weight=len(sup), xval_stride=stride))
                     out.append(_t("CondoBorda", m, {}, sup, C.K4, weight=len(sup), xval_stride=stride))
-                out.append(_t("Alaska", 2, {"m_1": 3, "quota": "droop", "simultaneous": True, "transfer": "fractional", "tiebreak": None}, sup, C.K4, nmax=8, weight=4 * len(sup), xval_stride=stride, split=3))
+                out.append(_t("Alaska", 2, {"m_1": 3, "quota": "droop", "simultaneous": True, "transfer": "fractional", "tiebreak": None}, sup, C.K4, nmax=8, weight=4 * len(sup), xval_stride=stride, split=3,
+                              path_alarm=240.0))
     # single-round positional rules (tied positions allowed)
     tied = F.tied3(q)
     for fam in tied:
